@@ -443,12 +443,14 @@ class DataFrameModel(BaseModel):
         check_infos = []
         for base in bases:
             for attr_name, attr_value in vars(base).items():
+                # a name hides the same name in the bases, whatever it is
+                # bound to (as attribute lookup does)
+                if attr_name in method_names:  # overridden by subclass
+                    continue
+                method_names.add(attr_name)
                 check_info = getattr(attr_value, key, None)
                 if not isinstance(check_info, CheckInfo):
                     continue
-                if attr_name in method_names:  # check overridden by subclass
-                    continue
-                method_names.add(attr_name)
                 check_infos.append(check_info)
         return check_infos
 
